@@ -49,7 +49,7 @@ def bases(ctx, n, salt="base"):
 
 
 def nbases(ctx):
-    return 24 if ctx.tier == "quick" else 240
+    return 40 if ctx.tier == "quick" else 400
 
 
 def render_plant(t, p):
